@@ -48,6 +48,8 @@ def handle(c):
                     break
         return {'res': res, 'ok': ok, 'msg': msg, 'sig': 'array2slice', 'kind': 'a2s'}
 
+    if c['kind'] == 'seq':
+        return handle_seq(c)
     shape, flat = tuple(c['shape']), bool(c['flat'])
     idx = py_idx(c['idx'])
     if c.get('slicer'):
@@ -99,9 +101,69 @@ def handle(c):
                 idx, shape, flat, type(exc).__name__, str(exc)[:100], np_res)
     if not ok:
         sig = c.get('class', '')
+        ix = c['idx']
+        if ix['t'] == 'ell' and len(ix['pre']) + len(ix['post']) == len(shape) and not flat:
+            adv = lambda its: any(i['t'] in ('int', 'arr') for i in its)
+            arr = any(i['t'] == 'arr' for i in ix['pre'] + ix['post'])
+            accepted = isinstance(om_res, list) and isinstance(np_res, list)
+            if adv(ix['pre']) and adv(ix['post']) and arr and accepted and \
+                    sorted(om_res[0]) == sorted(np_res[0]) and sorted(om_res[1]) == sorted(np_res[1]):
+                # NumPy treats an Ellipsis that expands to zero axes as separating the advanced indices on
+                # its two sides (their broadcast dimension moves to the front); OpenMDAO drops it first
+                sig = 'ellipsis-of-zero-width-between-advanced-indices'
     out = {'res': [om_res, np_res] if c.get('model', True) else '__none__', 'ok': ok, 'msg': msg,
            'sig': sig, 'kind': c.get('class', '')}
     return out
+
+
+def observe(ix, idx, shape, flat, kind):
+    """(shaped_array, indexed_src_shape) of an indexer whose source shape is set, and NumPy's answer."""
+    size = int(np.prod(shape))
+    ref = np.arange(size).reshape(shape)
+    if flat:
+        ref = ref.ravel()
+    try:
+        r = ref[idx]
+        np_res = [ints(r), [int(d) for d in r.shape]]
+    except (IndexError, ValueError):
+        np_res = err(1)
+    try:
+        sa = ix.shaped_array()
+        if not flat and len(shape) > 1 and type(ix).__name__ in ('IntIndexer', 'ArrayIndexer'):
+            pos = ints(np.arange(size).reshape(shape)[sa])
+        else:
+            pos = ints(sa)
+        om_res = [pos, [int(d) for d in ix.indexed_src_shape]]
+    except Exception:
+        om_res = err(1)
+    return om_res, np_res
+
+
+def handle_seq(c):
+    """One indexer object re-used for a sequence of source shapes (set_src_shape history), optionally
+    created through try_slice=True and/or copied: after every step it must describe NumPy's selection
+    for the CURRENT shape."""
+    flat = bool(c['flat'])
+    idx = py_idx(c['idx'])
+    kind = c['idx']['t']
+    res, ok, msg = [], True, ''
+    try:
+        ix = indexer(idx, flat_src=flat, try_slice=bool(c.get('try_slice')))
+    except Exception as e:
+        return {'res': err(1), 'ok': True, 'msg': 'creation rejected: %s' % e, 'sig': '', 'kind': 'seq'}
+    for k, shape in enumerate(c['shapes']):
+        shape = tuple(shape)
+        try:
+            ix.set_src_shape(shape)
+            om_res, np_res = observe(ix, idx, shape, flat, kind)
+        except Exception as e:
+            om_res, np_res = err(1), None
+        res.append(om_res)
+        if isinstance(om_res, list) and np_res is not None and om_res != np_res and ok:
+            ok = False
+            msg = 'indexer(%r, flat_src=%r%s) after set_src_shape history %r: derives %r for shape %r, NumPy gives %r' % (
+                idx, flat, ', try_slice=True' if c.get('try_slice') else '', c['shapes'][:k + 1], om_res, shape, np_res)
+    return {'res': res, 'ok': ok, 'msg': msg, 'sig': 'reshape-history' if not ok else '', 'kind': 'seq'}
 
 
 if __name__ == '__main__':
